@@ -21,8 +21,7 @@ import tempfile
 import warnings
 import contextlib
 
-HERE = os.path.dirname(os.path.abspath(__file__))
-sys.path.insert(0, os.path.dirname(HERE))
+# adjusted for the rebase onto main: the package is taken from PYTHONPATH.
 
 import numpy as np  # noqa: E402
 
@@ -32,7 +31,7 @@ with warnings.catch_warnings():
     from hvsrpy import processing, preprocessing  # noqa: E402
     from hvsrpy.instrument_response import InstrumentTransferFunction  # noqa: E402
 
-assert os.path.dirname(os.path.dirname(os.path.abspath(hvsrpy.__file__))) == os.path.dirname(HERE)
+print("hvsrpy from:", os.path.dirname(os.path.abspath(hvsrpy.__file__)), file=sys.stderr)
 
 VERBOSE = "-v" in sys.argv
 
@@ -789,6 +788,72 @@ def section_workflows():
     ]))
 
 
+# ---------------------------------------------------------------------------
+# 8. behaviour of the two upstream fixes (added for the rebase onto main)
+# ---------------------------------------------------------------------------
+
+FACTS = []
+
+
+def section_upstream_fixes():
+    long_specs = {"long": LONG, "long_mixed": LONG + [(9, 50001, 0.01)], "very_long": [(10, 70001, 0.005)]}
+    # (b) azimuthal processing: fft length recorded in the meta of the result.
+    for sname, spec in long_specs.items():
+        for fft_idx, fft_settings in enumerate([None, {"n": None}, {}, {"n": 2**17}, {"n": 1024}]):
+            for route, func in [("process", hvsrpy.process), ("direct", processing.azimuthal_hvsr_processing)]:
+                for mode in ["frequency_domain_resampling", "keeping_smallest_time_step"]:
+                    recs = make_records(spec)
+                    s = hvsrpy.HvsrAzimuthalProcessingSettings(
+                        smoothing=SMOOTHINGS["ko"], fft_settings=copy.deepcopy(fft_settings),
+                        handle_dissimilar_time_steps_by=mode, azimuths_in_degrees=[0., 45., 120.])
+                    name = f"fix/azimuthal/{sname}/fft{fft_idx}/{route}/{mode}"
+                    first = processing_case(name, func, recs, s)
+                    # same settings object once more (settings as left by the first call).
+                    second = processing_case(name + "/again", func, recs, s)
+                    ns = []
+                    for outcome in (first, second):
+                        if isinstance(outcome, list):
+                            meta = outcome[0].meta
+                            ns.append([meta["fft_settings"]["n"],
+                                       [h.meta["fft_settings"]["n"] if "fft_settings" in h.meta else "absent"
+                                        for h in outcome[0].hvsrs]])
+                        else:
+                            ns.append(type(outcome).__name__)
+                    fact = f"{name}: meta n = {ns!r}; settings.fft_settings afterwards = {s.fft_settings!r}"
+                    FACTS.append(fact)
+                    record_case(name + "/fact", fact)
+
+    # (a) psd preprocessing: one settings object, long record and then short record (and reversed).
+    def lengths(out):
+        if isinstance(out, BaseException):
+            return type(out).__name__
+        return [w.vt.n_samples for w in out]
+
+    sequences = {"long_short": [[(7, 40001, 0.005)], [(1, 3001, 0.005)]],
+                 "short_long": [[(1, 3001, 0.005)], [(7, 40001, 0.005)]],
+                 "long_short_long": [[(7, 40001, 0.005)], [(1, 3001, 0.005)], [(8, 70001, 0.005)]],
+                 "lists": [LONG, UNIFORM, LONG]}
+    for qname, sequence in sequences.items():
+        for fft_idx, fft_settings in enumerate([None, {"n": None}, {}, {"n": 2**16}]):
+            for window in [10., None]:
+                for route, func in [("preprocess", hvsrpy.preprocess), ("direct", preprocessing.psd_preprocess)]:
+                    kwargs = dict(window_length_in_seconds=window, differentiate=True)
+                    if fft_settings is not None:
+                        kwargs["fft_settings"] = copy.deepcopy(fft_settings)
+                    s = hvsrpy.PsdPreProcessingSettings(**kwargs)
+                    user_fft = s.fft_settings
+                    name = f"fix/psd/{qname}/fft{fft_idx}/{window}/{route}"
+                    seen = []
+                    for idx, spec in enumerate(sequence):
+                        recs = make_records(spec)
+                        out = run_case(f"{name}/{idx}", lambda: func(recs, s),
+                                       watch=[recs, s, s.fft_settings is user_fft])
+                        seen.append([lengths(out), copy.deepcopy(s.fft_settings)])
+                    fact = f"{name}: (window lengths, settings.fft_settings after call) = {seen!r}"
+                    FACTS.append(fact)
+                    record_case(name + "/fact", fact)
+
+
 def main():
     section_fft_length()
     section_grouping()
@@ -798,6 +863,11 @@ def main():
     section_psd_and_diffuse()
     section_preprocessing()
     section_workflows()
+    print(f"cases (original sections): {N_CASES}")
+    print(f"digest (original sections): {MASTER.hexdigest()}")
+    section_upstream_fixes()
+    if "--facts" in sys.argv:
+        print("\n".join(FACTS))
     shutil.rmtree(TMPDIR, ignore_errors=True)
     print(f"cases: {N_CASES}")
     print(f"digest: {MASTER.hexdigest()}")
